@@ -105,5 +105,5 @@ Inductive step_res : Type :=
 Definition step (s : cst) (ts : list tok) : step_res :=
   match handle_msg s ts with
   | Ok _ s' ts' => StepOk s' ts'
-  | Fail => StepFail | More => StepMore | Desync => StepDesync | Oob c => StepOob c
+  | Fail => StepFail | More => StepMore | Desync _ _ => StepDesync | Oob c => StepOob c
   end.
